@@ -1,6 +1,7 @@
 """Rules shared by C01/C02/C04/C09 (validator verdict tables and dispatch exhaustiveness)."""
 import vf
 import valtables as vt
+import absint
 
 CBOR_ONLY_CTRL = {"BITS", "CBOR", "CBORSEQ", "ABNFB", "BITFIELD"}
 CBOR_ONLY_TYPE2 = {"TaggedData", "DataMajorType"}
@@ -213,3 +214,78 @@ def ctrlrestore_rule(ctx, prop, which):
                           "%s visit_control_operator(%s) returns Ok with self.state.ctrl = %s: the operator stays in force for whatever is "
                           "validated next" % (which, r["key"], r["ctrl_after"]))
     ctx.extra.setdefault("ctrlrestore_variants_followed", {})[which] = sorted({r["key"].split("|")[0] for r in rows})
+
+
+CHECK_FREE = ("validate_", "cat_operation", "plus_operation", "abnf_from_complex_controller", "numeric_values_from_ident", "string_literals_from_ident")
+
+
+def ctrlcheck_rule(ctx, prop, which):
+    rid = "%s.ctrlcheck" % prop
+    ctx.rule(rid, "%s visit_control_operator never accepts vacuously: on every (operator, target kind, classification outcome, document "
+                  "kind) the abstract run can follow, a return of Ok with no error recorded has visited the controller or the target "
+                  "(visit_type2 / visit_type / visit_group) or called a validation helper — an arm that falls through to Ok(()) accepts "
+                  "every document of that kind (abstract evaluation with scripted callees)" % which, floor=600)
+    rows = vt.ctrl_restore_table(ctx.facts, which)
+    seen = set()
+    for r in rows:
+        checked = r["visits"] > 0 or r["errors"] > 0 or any(c.startswith(CHECK_FREE) for c in r["calls"])
+        ctx.site(rid, r["key"], r["file"], r["line"], {"visits": r["visits"], "errors": r["errors"], "calls": r["calls"][:6]})
+        if not checked:
+            k = r["key"].split("|preds=")[0] + "|doc=" + r["key"].split("|doc=")[1]
+            if k in seen:
+                continue
+            seen.add(k)
+            ctx.violation(rid, k, r["file"], r["line"],
+                          "%s visit_control_operator(%s) returns Ok without recording an error, visiting the controller or target, or "
+                          "calling a validation helper: every such document is accepted" % (which, r["key"]))
+
+
+def ctrltarget_rule(ctx, prop, which):
+    rid = "%s.ctrltarget" % prop
+    ctx.rule(rid, "%s visit_control_operator with a comparison control (.eq .ne .lt .le .gt .ge) on a type-name target (not a member key): "
+                  "the document is first validated against the target type itself, with no control in force, and when that records an "
+                  "error the controller is not consulted — `uint .lt 3` must not accept -5 (abstract evaluation, visits scripted)" % which, floor=12)
+    fi = vt.visitor_fn(ctx.facts, which, "visit_control_operator")
+    doc = ("enum", "Value::Number", [vt.json_number(3)]) if which == "json" else ("enum", "Value::Integer", [3])
+    target = ("enum", "Type2::Typename", {"ident": ("enum", "Identifier", {"ident": ("str", "t")}), "generic_args": ("None",)})
+    controller = ("enum", "Type2::UintValue", {"value": 3})
+    for c in ("EQ", "NE", "LT", "LE", "GT", "GE"):
+        for target_ok in (True, False):
+            key = "%s|target %s" % (c, "matches" if target_ok else "fails")
+            obj = vt.self_obj(which, doc)
+            order = []
+
+            def visit(run, node, recv, obj=obj, order=order, target_ok=target_ok):
+                a = run.it.eval(node["a"][0])
+                what = "target" if a is target or a == target else "controller" if a == controller else "other"
+                order.append((what, obj[2]["state"][2]["ctrl"]))
+                if what == "target" and not target_ok:
+                    obj[2]["errors"].append(("str", "target mismatch"))
+                return ("Ok", ("tuple", []))
+            r = vt.Run(ctx.facts, which, "default", {}, {"self": obj, "target": target, "ctrl": ("enum", "ControlOperator::" + c, []), "controller": controller},
+                       scripts={"visit_type2": visit})
+            base = r.on_call
+
+            def on_call(kind, name, node, args, recv, base=base):
+                if kind == "fn" and name and (name.startswith("is_ident_") or name.startswith("ident_")):
+                    # a numeric type name that the document's kind matches (so that ad-hoc kind pre-checks pass)
+                    b = name.split("::")[-1]
+                    if b == "ident_numeric_kind":
+                        return ("Some", ("enum", "NumericKind::Int", []))
+                    return b in ("is_ident_numeric_data_type", "is_ident_integer_data_type")
+                return base(kind, name, node, args, recv)
+            r.it.on_call = on_call
+            try:
+                res = r.run(fi.node)
+            except absint.Unknown as e:
+                ctx.incomplete_msg(rid, "%s: %s" % (key, e))
+                continue
+            ctx.site(rid, key, fi.file, fi.line, {"visits": [w for w, _ in order], "result": repr(res)[:30]})
+            first = order[0] if order else None
+            if first is None or first[0] != "target" or first[1] != ("None",):
+                ctx.violation(rid, "%s|target-first" % c, fi.file, fi.line,
+                              "%s visit_control_operator(.%s) does not validate the document against the target type first (visits: %s)"
+                              % (which, c.lower(), [w for w, _ in order]))
+            elif not target_ok and any(w == "controller" for w, _ in order):
+                ctx.violation(rid, "%s|controller-after-mismatch" % c, fi.file, fi.line,
+                              "%s visit_control_operator(.%s) consults the controller although the target type rejected the document" % (which, c.lower()))
